@@ -9,6 +9,7 @@ package syntax
 import (
 	"bytes"
 	"errors"
+	"fmt"
 	"sort"
 	"strings"
 )
@@ -164,8 +165,8 @@ func init() {
 	mmErrorVerbose = true
 }
 
-func yaccParseAny(src []byte, file *SourceFile, intern *stringIntern) (int, mmLexError) {
-	lexinfo := mmLexError{
+func yaccParseAny(src []byte, file *SourceFile, intern *stringIntern) (result int, lexinfo mmLexError) {
+	lexinfo = mmLexError{
 		info: mmLexInfo{
 			src: src,
 			pos: 0,
@@ -177,7 +178,17 @@ func yaccParseAny(src []byte, file *SourceFile, intern *stringIntern) (int, mmLe
 			intern: intern,
 		},
 	}
-	result := mmParse(&lexinfo.info)
+	// The tokenizer admits some tokens which the grammar actions cannot
+	// convert (for example numeric literals which are out of range).  Those
+	// conversions panic.  Report such a panic as a parse error at the
+	// location of the offending token rather than crashing the process.
+	defer func() {
+		if r := recover(); r != nil {
+			lexinfo.info.err = fmt.Sprint(r)
+			result = 1
+		}
+	}()
+	result = mmParse(&lexinfo.info)
 	if result == 0 {
 		lexinfo.info.global.comments = lexinfo.info.comments
 		lexinfo.info.global.comments = compileComments(
